@@ -18,7 +18,7 @@ def run(chk, tier):
                 'instance itself for by-value receivers); an owning handle (Rc/Arc) must not be dropped while a clone derived from it is '
                 'handed on; unmentioned default-bodied methods resolve to the default body before any fallback.')
     X.check_traits(chk, tier, chk.seed, {'C15'})
-    for cfg in configs(tier, thorough=('std', 'nostd-spin')):
+    for cfg in configs(tier, thorough=('std', 'mocks', 'nostd-spin', 'nostd')):
         F = load(chk, cfg)
         E.eval_dyn_table(chk, F, 'R15.4', cfg)
         L.clone_and_ctor(chk, F, 'R15.3.clone', cfg)
